@@ -132,6 +132,7 @@ type c11Job struct {
 	sc   c11Scenario
 	f    c11Fault
 	hold bool
+	fam  int    // family of the run: 0 scenario enumeration, 1 blocked consumer, 2 many handlers (see c11Hung)
 	wrap string // "": the endpoint runs on the gated stream itself; "conn": on net.ConnStream over it
 }
 
@@ -185,8 +186,8 @@ func c11KindJobs(sc c11Scenario, salt int) []c11Job {
 		slot++
 		for ki, k := range c11ErrKinds {
 			for oi, once := range []bool{false, true} {
-				jobs = append(jobs, c11Job{sc, c11Fault{pos: pos, frag: frag, kind: kind, ek: k.name, once: once},
-					(slot+ki+oi)%2 == 0, "conn"})
+				jobs = append(jobs, c11Job{sc: sc, f: c11Fault{pos: pos, frag: frag, kind: kind, ek: k.name, once: once},
+					hold: (slot+ki+oi)%2 == 0, wrap: "conn"})
 			}
 		}
 	}
